@@ -64,6 +64,9 @@ pub enum Call
     /// register a revokable no-op reactor on a type-wide trigger (kind 0 insertion, 1 mutation, 2 removal, 3 resource
     /// mutation; second field: component / resource) and revoke it at once: the probe reactors must be unaffected
     RegRevoke(u8, u8),
+    /// `React::get_mut` on a zero-sized reactive component (a marker like the ones in the crate's documentation): one
+    /// mutation trigger, like for any other component
+    ZstGetMut(u8),
 }
 
 #[derive(Debug, Clone, PartialEq, Eq, Hash, Serialize, Deserialize)]
@@ -122,6 +125,16 @@ trait Val: ReactComponent + PartialEq
     fn set(&mut self, v: u8);
 }
 impl Val for CA { fn new(v: u8) -> Self { CA(v) } fn v(&self) -> u8 { self.0 } fn set(&mut self, v: u8) { self.0 = v; } }
+/// A zero-sized reactive component.
+#[derive(ReactComponent, PartialEq, Clone, Copy, Debug)]
+pub struct CZ;
+impl Val for CZ { fn new(_: u8) -> Self { CZ } fn v(&self) -> u8 { 0 } fn set(&mut self, _: u8) {} }
+
+fn zst_get_mut(In(e): In<Entity>, mut c: Commands, mut q: Query<&mut React<CZ>>)
+{
+    if let Ok(mut r) = q.get_mut(e) { let _ = r.get_mut(&mut c); }
+}
+
 impl Val for CB { fn new(v: u8) -> Self { CB(v) } fn v(&self) -> u8 { self.0 } fn set(&mut self, v: u8) { self.0 = v; } }
 trait RVal: ReactResource + PartialEq
 {
@@ -183,6 +196,7 @@ fn world_level(c: &mut Commands, call: Call) -> bool
         Call::WorldResNoreact(0, v) => c.queue(move |w: &mut World| w.react_resource_mut_noreact::<RA>().set(v)),
         Call::WorldResNoreact(_, v) => c.queue(move |w: &mut World| w.react_resource_mut_noreact::<RB>().set(v)),
         Call::Despawn(e) => { let e = pool_entity(e); c.queue(move |w: &mut World| { if let Ok(em) = w.get_entity_mut(e) { em.despawn(); } }); }
+        Call::ZstGetMut(e) => c.syscall(pool_entity(e), zst_get_mut),
         Call::RegRevoke(kind, x) => c.queue(move |w: &mut World| {
             w.react(|rc| {
                 // entity-scoped registrations on a pool entity: revoking one must leave the entity's other registrations
@@ -432,6 +446,7 @@ enum Queued
     Res(u8),
     ResSet(u8, u8),
     Despawn(u8),
+    ZstMut(u8),
 }
 
 struct Expect
@@ -593,6 +608,7 @@ impl Model
                 Call::Despawn(e) => { exp.cells.push(name); queue.push(Queued::Despawn(e % n)); }
                 Call::WorldResReads(_) => { exp.cells.push(name); }
                 Call::RegRevoke(..) => { exp.cells.push(name); }
+                Call::ZstGetMut(e) => { exp.cells.push(name); queue.push(Queued::ZstMut(e % n)); }
             }
         }
         for q in queue
@@ -627,6 +643,11 @@ impl Model
                 }
                 Queued::Res(r) => exp.required.push(Obs::Res{ r }),
                 Queued::ResSet(r, v) => self.res[r as usize] = v,
+                Queued::ZstMut(e) =>
+                {
+                    // the query finds the component only on a live entity
+                    if self.alive[e as usize] { exp.required.push(Obs::Mut{ c: 2, e, scoped: false }); }
+                }
                 Queued::Despawn(e) =>
                 {
                     self.alive[e as usize] = false;
@@ -669,6 +690,7 @@ fn run_case_inner(case: &AccCase, out: &mut AccOutcome)
         app.add_reactor(insertion::<CB>(), probe_ins::<CB, 1>);
         app.add_reactor(mutation::<CA>(), probe_mut::<CA, 0>);
         app.add_reactor(mutation::<CB>(), probe_mut::<CB, 1>);
+        app.add_reactor(mutation::<CZ>(), probe_mut::<CZ, 2>);
         app.add_reactor(resource_mutation::<RA>(), || log_obs(Obs::Res{ r: 0 }));
         app.add_reactor(resource_mutation::<RB>(), || log_obs(Obs::Res{ r: 1 }));
     }
@@ -690,10 +712,13 @@ fn run_case_inner(case: &AccCase, out: &mut AccOutcome)
             rc.on_persistent(insertion::<CB>(), probe_ins::<CB, 1>);
             rc.on_persistent(mutation::<CA>(), probe_mut::<CA, 0>);
             rc.on_persistent(mutation::<CB>(), probe_mut::<CB, 1>);
+            rc.on_persistent(mutation::<CZ>(), probe_mut::<CZ, 2>);
             rc.on_persistent(resource_mutation::<RA>(), || log_obs(Obs::Res{ r: 0 }));
             rc.on_persistent(resource_mutation::<RB>(), || log_obs(Obs::Res{ r: 1 }));
         });
     }
+    // every pool entity carries the zero-sized reactive component from the start
+    for e in pool.iter().copied() { world.react(|rc| rc.insert(e, CZ)); }
     for e in pool.iter().copied()
     {
         world.react(|rc| {
@@ -825,8 +850,9 @@ pub fn decode(bytes: &[u8], max_steps: usize, max_calls: usize) -> AccCase
             let call = if k % 5 == 4
             {
                 // world-level
-                match below(byte(&mut u), 9)
+                match below(byte(&mut u), 10)
                 {
+                    9 => Call::ZstGetMut(e),
                     7 => Call::WorldResReads(r),
                     8 => Call::RegRevoke((k / 5) % 16, r),
                     0 | 1 => Call::Insert(e, c, v),
